@@ -87,6 +87,7 @@ Theorem C02_timer_armed_unrepaired_refuted :
     closed s = false /\ in_dgram s = None /\ blocked s 1 = false /\ phase s = 1 /\
     0 < ae (sD s) /\ needs_b s = true /\ ld s = None.
 Proof. exists wedge_ops. vm_compute. repeat split; reflexivity. Qed.
+Print Assumptions C02_timer_armed_unrepaired_refuted.
 Example C02_same_history_repaired_is_armed :
   ld (Recovery.run MAXEXP true (init false false) wedge_ops) = Some 30000.
 Proof. vm_compute. reflexivity. Qed.
